@@ -200,7 +200,9 @@ func mutateCustomize(t *Tape, valid Object) (body []byte, code int, class string
 			func() { r["labelSelector"] = "all" },
 			func() { r["labelSelector"] = Object{"matchLabels": Object{"a": int64(1)}} },
 			func() { r["labelSelector"] = Object{"matchExpressions": []interface{}{nil}} },
-			func() { r["labelSelector"] = Object{"matchExpressions": []interface{}{Object{"key": "a", "operator": "Near", "values": nil}}} },
+			func() {
+				r["labelSelector"] = Object{"matchExpressions": []interface{}{Object{"key": "a", "operator": "Near", "values": nil}}}
+			},
 			func() { r["names"] = "r0" },
 			func() { r["names"] = []interface{}{nil, int64(1)} },
 			func() { r["namespace"] = int64(5) },
